@@ -50,6 +50,17 @@ class Impl:
         self.ret, self.err = 1, False
         self.hmap = {}  # real hash -> model hash
         self.nid = 1
+        # the release hook for data attached to a particle (free_particle_ap): must be called exactly once for every particle that
+        # leaves the simulation, and for that particle (the id is carried in m)
+        self.freed = []
+        self.apok = True
+
+        def fpa(pp, freed=self.freed):
+            freed.append(int(pp.contents.m) if pp.contents.m == pp.contents.m else -1)
+        sim.free_particle_ap = fpa
+
+    def _live(self):
+        return sorted(int(self.sim._particles[k].m) for k in range(self.sim.N) if self.sim._particles[k].y == self.sim._particles[k].y)
 
     def _msgs(self):
         err = False
@@ -67,6 +78,20 @@ class Impl:
         return err
 
     def apply(self, act):
+        before = self._live()
+        del self.freed[:]
+        self._apply(act)
+        after = self._live()
+        gone = list(before)
+        for i in after:
+            if i in gone:
+                gone.remove(i)
+        # (documented for sim.remove only: remove-all and the deferred tree removal are not held to it)
+        if act[0] in ("RemoveIdx", "RemoveHash") and sorted(self.freed) != sorted(gone):
+            self.apok = False
+            self.apinfo = {"action": list(act), "left_the_simulation": gone, "release_hook_called_for": list(self.freed)}
+
+    def _apply(self, act):
         sim, api = self.sim, self.api
         name = act[0]
         if name not in ("SetHash", "SetNActive", "TreeFlush"):
@@ -203,7 +228,7 @@ class Impl:
                 hv = int(e.hash)
                 tbl.append((self.hmap.get(hv, hv if hv < 16 else -hv), int(e.index)))
         return {"ps": tuple(ps), "nActive": int(sim.N_active), "ret": int(self.ret), "err": bool(self.err),
-                "tbl": tuple(sorted(tbl)), "nAlloc": int(sim.N_allocated)}
+                "tbl": tuple(sorted(tbl)), "nAlloc": int(sim.N_allocated), "apok": self.apok, "apinfo": getattr(self, "apinfo", None)}
 
 
 def spec_proj(st, with_tbl=True):
@@ -261,6 +286,9 @@ def graph_walk(dot, cfg, out, api, budget_s):
             checked += 1
             if len(samples) < 4 and len(path[s]) >= 3:
                 samples.append({"history": [list(a) for a in path[s] + (act,)], "impl_state": pr})
+            if not pr["apok"]:
+                violations.append({"key": "ap-hook:%s" % act[0], "history": [list(a) for a in path[s] + (act,)], "impl": pr, "spec_allows": ["release hook called exactly for the particles that left"],
+                                   "cfg": cfg, "api": api})
             if pr["nAlloc"] < len(pr["ps"]):
                 violations.append({"key": "alloc", "history": [list(a) for a in path[s] + (act,)], "impl": pr})
             if match is None:
@@ -326,8 +354,58 @@ def random_traces(cfg, out, seed, ntraces, length, api):
             fh.write(json.dumps({"cfg": cfg, "api": api, "events": events}) + "\n")
 
 
+def growth_mode(out):
+    """storage growth boundaries (meant to run under ASan): the particle array exactly full (N == N_allocated = 128, 256) when particles are
+    removed in either way, added again across the reallocation, looked up by hash -- plain and hybrid (MERCURIUS keeps a parallel dcrit array)"""
+    res = {"ops": 0, "problems": []}
+    for hybrid in (False, True):
+        for B in (128, 256):
+            sim = rebound.Simulation()
+            if hybrid:
+                sim.integrator = "mercurius"
+                sim.dt = 1e-3
+            sim.add(m=1.0, hash=1)
+            k = 1
+            while sim.N < B:
+                k += 1
+                sim.add(m=1e-9, a=1.0 + 0.01 * k, hash=k)
+            if hybrid:
+                sim.step()                         # allocates dcrit for B particles
+            assert sim.N == B and sim.N_allocated == B, (sim.N, sim.N_allocated)
+            ids0 = [sim.particles[i].hash.value for i in range(sim.N)]
+            sim.remove(5, keep_sorted=True)        # shift loop over a full array
+            ids0.pop(5)
+            sim.remove(0 if not hybrid else 7, keep_sorted=False)
+            if hybrid:
+                ids0.pop(7)                          # (the hybrid integrator forces the order-preserving variant)
+            else:
+                ids0[0] = ids0.pop()
+            sim.remove(sim.N - 1, keep_sorted=True)
+            ids0.pop()
+            for j in range(5):                     # across the reallocation
+                k += 1
+                sim.add(m=1e-9, a=1.0 + 0.01 * k, hash=k)
+                ids0.append(k)
+            sim.remove(hash=k - 2)
+            ids0.remove(k - 2)                      # (removal by hash keeps the order by default)
+            res["ops"] += 10
+            got = [sim.particles[i].hash.value for i in range(sim.N)]
+            if got != ids0:
+                res["problems"].append({"hybrid": hybrid, "boundary": B, "got_tail": got[-8:], "want_tail": ids0[-8:], "N": sim.N, "want_N": len(ids0)})
+            for h in (ids0[3], ids0[-1]):
+                if sim.particles[ctypes.c_uint32(h)].hash.value != h:
+                    res["problems"].append({"hybrid": hybrid, "boundary": B, "lookup": h})
+            if hybrid:
+                sim.step()
+            del sim
+    json.dump(res, open(out, "w"))
+
+
 if __name__ == "__main__":
     mode = sys.argv[1]
+    if mode == "growth":
+        growth_mode(sys.argv[2])
+        sys.exit(0)
     if mode == "graph":
         cfg = json.loads(sys.argv[3])
         graph_walk(sys.argv[2], cfg, sys.argv[4], sys.argv[5], float(sys.argv[6]))
